@@ -6,11 +6,11 @@ from comp.slabconc import check as slabconc
 def main():
     c = vlib.Check("C05")
     c.rule = slabconc.RULE
-    c.trusted = ["Coq 8.16.1 kernel (coqc; vm_compute for skeleton_disciplined and the Examples)"] + slabconc.TRUSTED
+    c.trusted = ["Coq 8.16.1 kernel (coqc; vm_compute for skeleton_disciplined, conc_slab_shapes_match and the Examples)"] + slabconc.TRUSTED
     c.assumptions = slabconc.ASSUMPTIONS
     c.kind_filter = lambda k: k not in vlib.LIFETIME_KINDS
     slabconc.regen()                      # Gen/SlabSkeleton.v must be current before the proof leg imports it
-    c.prove(["C05"])
+    c.prove(["C05", "C05_slab"])          # C05_slab: the concrete pool of C01-C04 under concurrency (coq/SlabConc/ConcSlab*.v)
     slabconc.run(c)
     sys.exit(c.finish())
 
